@@ -496,7 +496,17 @@ pub fn text_variants(rng: &mut StdRng, with_san: bool) -> Value {
 pub fn session(rng: &mut StdRng, ctx: &Ctx, start: &Board, nops: usize, profile: &str, with_san: bool) -> Vec<Value> {
     let mut evs = Vec::new();
     let mut c: Option<Chain> = None;
-    evs.push(exec(&mut c, &json!({"op": "new", "pos": raw_json(start.raw())})));
+    // one start in five is handed over as an UN-normalised raw board (every right claimed, an e.p. mark on a
+    // random file of the right rank): the chain must start from what validation makes of it
+    let mut raw0 = *start.raw();
+    if rng.gen_bool(0.2) {
+        raw0.castling = owlchess::CastlingRights::FULL;
+        if raw0.ep_source.is_none() {
+            let rank = if raw0.side == owlchess::Color::White { 3 } else { 4 };
+            raw0.ep_source = Some(owlchess::Coord::from_index(rank * 8 + rng.gen_range(0..8)));
+        }
+    }
+    evs.push(exec(&mut c, &json!({"op": "new", "pos": raw_json(&raw0)})));
     let mut prev_own: Vec<Move> = Vec::new();
     while evs.len() < nops {
         let ch = c.as_ref().unwrap();
